@@ -20,16 +20,16 @@ type access struct {
 }
 
 type shadow struct {
-	keep   unsafe.Pointer // keeps the object alive so the address is not reused
-	w      access
-	hasW   bool
-	reads  []access
+	keep  unsafe.Pointer // keeps the object alive so the address is not reused
+	w     access
+	hasW  bool
+	reads []access
 }
 
 type hbState struct {
-	mem    map[uintptr]*shadow
-	chans  map[uintptr]*SyncVar
-	atoms  map[uintptr]*SyncVar
+	mem   map[uintptr]*shadow
+	chans map[uintptr]*SyncVar
+	atoms map[uintptr]*SyncVar
 }
 
 func newHB() *hbState {
